@@ -915,6 +915,98 @@ func main() {
 	fmt.Fprintf(&b, "%s\n]\n\nend GoSup.%s\n", strings.Join(gs, ",\n"), *ns)
 	write(*out, "Tables.lean", b.String())
 
+	// ---- Goroutines.lean : every goroutine the library starts, with the points where it can block
+	if *ns == "Generated" {
+		var gb strings.Builder
+		fmt.Fprintf(&gb, "/-! REGENERATED by tools/extract. -/\nnamespace GoSup.%s\n\n", *ns)
+		fmt.Fprintf(&gb, "/-- (function that starts it, what is started, blocking points); a blocking point is the list of its\nalternatives: one element for a bare receive / send / range / call, several for a `select` -/\n")
+		fmt.Fprintf(&gb, "def goroutines : List (String × String × List (List String)) := [\n")
+		byName := map[string]*ast.FuncDecl{}
+		for _, f := range fns {
+			byName[f.pkg+"."+f.name] = f.decl
+		}
+		// spawn wrappers: functions that start their func parameter as a goroutine (`wg.Go(f)` / `go f()`),
+		// e.g. PIDZero.goTracked; a call of a wrapper is a goroutine creation at the call site
+		wrappers := map[string]bool{}
+		for _, f := range fns {
+			params := map[string]bool{}
+			for _, fl := range f.decl.Type.Params.List {
+				if _, ok := fl.Type.(*ast.FuncType); ok {
+					for _, n := range fl.Names {
+						params[n.Name] = true
+					}
+				}
+			}
+			if len(params) == 0 {
+				continue
+			}
+			ast.Inspect(f.decl.Body, func(n ast.Node) bool {
+				switch x := n.(type) {
+				case *ast.GoStmt:
+					if id, ok := x.Call.Fun.(*ast.Ident); ok && params[id.Name] {
+						wrappers[f.pkg+"."+f.name] = true
+					}
+				case *ast.CallExpr:
+					if sel, ok := x.Fun.(*ast.SelectorExpr); ok && sel.Sel.Name == "Go" && len(x.Args) == 1 {
+						if id, ok := x.Args[0].(*ast.Ident); ok && params[id.Name] {
+							wrappers[f.pkg+"."+f.name] = true
+						}
+					}
+				}
+				return true
+			})
+		}
+		var rows []string
+		for _, f := range fns {
+			if wrappers[f.pkg+"."+f.name] {
+				continue // its own `wg.Go(f)` is accounted for at the call sites
+			}
+			k := 0
+			add := func(label string, body ast.Node, recvOf string) {
+				pts := blockingPoints(body, recvOf, func(short string) *ast.FuncDecl { return byName[f.pkg+"."+short] }, 0, map[string]bool{})
+				var ps []string
+				for _, p := range pts {
+					ps = append(ps, leanList(p))
+				}
+				rows = append(rows, fmt.Sprintf("  (%s, %s, [%s])", leanStr(f.key()), leanStr(label), strings.Join(ps, ", ")))
+			}
+			start := func(fun ast.Expr, how string) {
+				if fl, ok := fun.(*ast.FuncLit); ok {
+					add(fmt.Sprintf("%s func#%d", how, k), fl.Body, declRecv(f.decl))
+					k++
+					return
+				}
+				name := src(fun)
+				short := name
+				if i := strings.LastIndex(short, "."); i >= 0 {
+					short = short[i+1:]
+				}
+				if d, ok := byName[f.pkg+"."+short]; ok {
+					add(how+" "+name, d.Body, declRecv(d))
+				} else {
+					rows = append(rows, fmt.Sprintf("  (%s, %s, [[\"call unresolved\"]])", leanStr(f.key()), leanStr(how+" "+name)))
+				}
+			}
+			ast.Inspect(f.decl.Body, func(n ast.Node) bool {
+				switch x := n.(type) {
+				case *ast.GoStmt:
+					start(x.Call.Fun, "go")
+				case *ast.CallExpr:
+					if sel, ok := x.Fun.(*ast.SelectorExpr); ok && len(x.Args) == 1 {
+						if sel.Sel.Name == "Go" {
+							start(x.Args[0], src(sel.X)+".Go")
+						} else if wrappers[f.pkg+"."+sel.Sel.Name] {
+							start(x.Args[0], src(x.Fun))
+						}
+					}
+				}
+				return true
+			})
+		}
+		fmt.Fprintf(&gb, "%s\n]\n\nend GoSup.%s\n", strings.Join(rows, ",\n"), *ns)
+		write(*out, "Goroutines.lean", gb.String())
+	}
+
 	// ---- Accesses.lean : field accesses with lock sets
 	b.Reset()
 	fmt.Fprintf(&b, "/-! REGENERATED by tools/extract. -/\nnamespace GoSup.%s\n\n", *ns)
@@ -1003,6 +1095,122 @@ func main() {
 	sort.Strings(ms)
 	fmt.Fprintf(&b, "def exportedMethods : List String :=\n  %s\n\ndef mutexes : List String :=\n  %s\n\nend GoSup.%s\n", leanList(exp), leanList(ms), *ns)
 	write(*out, "Accesses.lean", b.String())
+}
+
+func declRecv(d *ast.FuncDecl) string {
+	if d.Recv == nil || len(d.Recv.List) == 0 || len(d.Recv.List[0].Names) == 0 {
+		return ""
+	}
+	return d.Recv.List[0].Names[0].Name
+}
+
+// blockingPoints lists, in source order, the points of a goroutine body where it can block: a select
+// statement is one point with its alternatives; a receive, send or channel range outside a select
+// and every call that is not logging or a pure helper is a point with one alternative.  Bodies of
+// nested goroutines are not entered (they have their own row).
+func blockingPoints(body ast.Node, recv string, resolve func(string) *ast.FuncDecl, depth int, stack map[string]bool) [][]string {
+	var pts [][]string
+	var walk func(n ast.Node)
+	quiet := func(c *ast.CallExpr) bool {
+		f := src(c.Fun)
+		if strings.Contains(strings.ToLower(f), "logger") || strings.Contains(f, "verifYield") {
+			return true
+		}
+		switch f {
+		case "close", "len", "cap", "append", "make", "new", "delete", "panic", "recover", "string", "cancel", "done", "any", "error":
+			return true
+		}
+		if strings.HasSuffix(f, ".cancel") || strings.HasSuffix(f, "Cancel") {
+			return true
+		}
+		for _, p := range []string{"fmt.", "errors.", "strings.", "slog.", "context.", "time.After", "time.Since", "time.Now", "time.NewTimer", "time.NewTicker", "atomic.", "sort.", "maps.", "slices."} {
+			if strings.HasPrefix(f, p) {
+				return true
+			}
+		}
+		if sel, ok := c.Fun.(*ast.SelectorExpr); ok {
+			switch sel.Sel.Name {
+			case "Done", "Err", "Load", "Store", "Swap", "Range", "Delete", "Lock", "Unlock", "RLock", "RUnlock", "Error", "String", "Add", "Is", "Stop",
+				"Debug", "Info", "Warn", "With", "WithGroup", "GetState", "IsRunning", "LoadOrStore", "CompareAndSwap":
+				// Stop here is Timer/Ticker.Stop in goroutine bodies; runnable Stop calls are listed by name below
+				if sel.Sel.Name == "Stop" && !strings.Contains(strings.ToLower(src(sel.X)), "tick") && !strings.Contains(strings.ToLower(src(sel.X)), "timer") {
+					return false
+				}
+				return true
+			}
+		}
+		return false
+	}
+	walk = func(n ast.Node) {
+		ast.Inspect(n, func(m ast.Node) bool {
+			switch x := m.(type) {
+			case *ast.GoStmt:
+				return false
+			case *ast.SelectStmt:
+				var alts []string
+				for _, c := range x.Body.List {
+					cc := c.(*ast.CommClause)
+					if cc.Comm == nil {
+						alts = append(alts, "default")
+						continue
+					}
+					switch y := cc.Comm.(type) {
+					case *ast.SendStmt:
+						alts = append(alts, src(y.Chan)+"<-")
+					case *ast.ExprStmt:
+						alts = append(alts, src(y.X))
+					case *ast.AssignStmt:
+						alts = append(alts, src(y.Rhs[0]))
+					}
+				}
+				pts = append(pts, alts)
+				for _, c := range x.Body.List {
+					for _, st := range c.(*ast.CommClause).Body {
+						walk(st)
+					}
+				}
+				return false
+			case *ast.UnaryExpr:
+				if x.Op == token.ARROW {
+					pts = append(pts, []string{"<-" + src(x.X)})
+				}
+			case *ast.SendStmt:
+				pts = append(pts, []string{src(x.Chan) + "<-"})
+			case *ast.RangeStmt:
+				if x.Value == nil {
+					if _, lit := x.X.(*ast.BasicLit); !lit {
+						pts = append(pts, []string{"range " + src(x.X)})
+					}
+				}
+			case *ast.CallExpr:
+				if sel, ok := x.Fun.(*ast.SelectorExpr); ok && (sel.Sel.Name == "Go" || sel.Sel.Name == "goTracked") && len(x.Args) == 1 {
+					return false
+				}
+				if _, ok := x.Fun.(*ast.FuncLit); ok {
+					return true
+				}
+				if !quiet(x) {
+					name := src(x.Fun)
+					short := name
+					if i := strings.LastIndex(short, "."); i >= 0 {
+						short = short[i+1:]
+					}
+					// a call of a function of the same package is replaced by that function's own blocking points
+					own := name == short || (recv != "" && name == recv+"."+short)
+					if d := resolve(short); d != nil && own && depth < 4 && !stack[short] {
+						stack[short] = true
+						pts = append(pts, blockingPoints(d.Body, declRecv(d), resolve, depth+1, stack)...)
+						delete(stack, short)
+					} else {
+						pts = append(pts, []string{"call " + name})
+					}
+				}
+			}
+			return true
+		})
+	}
+	walk(body)
+	return pts
 }
 
 // waitSet lists the channel receives / selects inside a goroutine body (what it can block on).
